@@ -42,6 +42,12 @@ CLAIMS["C10"] = dict(
    note=TRUST + ". Assumed (listed per run): what is on the parse stack when an ANTLR callback runs (grammar + walker order), the tree-shape of the AST during the typing pass (typing one operand leaves its siblings alone), that ANTLR's own runtime terminates without panicking and reports errors to registered listeners. cursors.go is covered under C14.",
    technique="contract-based deductive verification: zero/thin-annotation safety sweep over go/ssa with type-table and representation-invariant contracts, SMT")
 
+CLAIMS["C14"] = dict(
+   text="Interface-level contract of ast.SetCursor/SeekableSetCursor over a ghost model (sequence, length, position, direction): IsValid iff position < length, Current = sequence[position] (a non-nil value), Next advances by one, Seek(v) lands on the first element that is not before v in the cursor's direction with everything skipped before v. The four bbolt adapters (forward/reverse x raw/typed), the set-symbol runtime cursor and the empty cursor are each proved to implement it, with the model defined from the bbolt cursor they wrap (views) and representation invariants re-established by every method; typed cursors are proved to return elements without the storage tag, including the empty element. filteredCursor, unionSetCursor, sliceSetCursor, ValidIdsCursors and uniqueIndexScanner.Next/Seek are proved against per-step functional contracts (skip only rejected elements / one merge step / offset-limit bookkeeping); the cursor constructors (TypedBucket.Open*/Iterate*, setIndex.OpenValueCursor/OpenKeyCursor) are proved to pick the typed or raw adapter and the requested direction.",
+   design="5/C14",
+   note=TRUST + ". Assumed: the bbolt cursor model (sorted keys, First/Last/Next/Prev/Seek), that typed set buckets contain only keys carrying the field type tag, the byte-level meaning of PrependFieldType (prepend/untag axioms). treeCursor (llrb in-order walk) has safety obligations only; its enumeration order is not proved. IteratorMatchingAllOf/AnyOf closures and stackedCursor are not under contract.",
+   technique="contract-based deductive verification: interface-level contract with ghost views, impl obligations per cursor kind, loop invariants, SMT")
+
 NA = {
 }
 
